@@ -287,7 +287,9 @@ type c09Case struct {
 var c09Dir string
 
 // c09RepeatCounts: how many faults are raised and handled, one after the other, in ONE run
-var c09RepeatCounts = []int{1, 2, 10, 100, 1000, 5000, 20000}
+// (the last count is beyond the interpreter's own limit of 100 000 nested evaluations: whatever a
+// handled fault leaves behind, one unit per fault is enough to be seen)
+var c09RepeatCounts = []int{1, 2, 10, 100, 1000, 5000, 20000, 120000}
 
 // c09Repeat: a method raises (kind) and handles N times in a row; afterwards ordinary
 // expressions still have their values, every block has ended and no call is left open.
@@ -501,7 +503,7 @@ func init() {
 	mc.Register(&mc.Check{
 		ID:    "C09",
 		Level: "exploration",
-		Rule:  "E1 exhaustive over the product: raise kind {抛出异常, 抛出 custom type, both also through a variable that holds the type, failing built-in (取样 out of range; a numeric % directive given a text), failing library call (解析JSON), 1 / 0, index out of range, undefined name} x raise site {statement, in 如果, in 每当, in 遍历 over a list, in 遍历 over a dictionary, in a constructor, inside a handler, statement with every caller's call inside a 遍历 loop of the caller, in the condition of a 再如 branch} x call depth 0..D x handler placement per level {none, matching, non-matching, non-matching+matching, matching+non-matching} x handler body {no 输出, 输出 v, raises again, no 输出 but a valued expression as last statement, calls a method that raises and handles an exception of its own and then goes on using 其} x level 1 plain method / method of an object x innermost level in the main file / in an imported module; every program runs follow-up probes after the handled call: caller locals, caller's 其, a callee local that must be gone (guarded read), a second call of the same chain, final result; on in-memory runs also the VM's call depth and scope depth. Plus, for every raise kind, a method that raises and handles N = 1, 2, 10, 100, 1000, 5000, 20000 times in one run: afterwards ordinary expressions have their values, every block has ended, no call is left open. Oracle: reference interpreter. Distinct by construction; non-trivial = at least one handler present.",
+		Rule:  "E1 exhaustive over the product: raise kind {抛出异常, 抛出 custom type, both also through a variable that holds the type, failing built-in (取样 out of range; a numeric % directive given a text), failing library call (解析JSON), 1 / 0, index out of range, undefined name} x raise site {statement, in 如果, in 每当, in 遍历 over a list, in 遍历 over a dictionary, in a constructor, inside a handler, statement with every caller's call inside a 遍历 loop of the caller, in the condition of a 再如 branch} x call depth 0..D x handler placement per level {none, matching, non-matching, non-matching+matching, matching+non-matching} x handler body {no 输出, 输出 v, raises again, no 输出 but a valued expression as last statement, calls a method that raises and handles an exception of its own and then goes on using 其} x level 1 plain method / method of an object x innermost level in the main file / in an imported module; every program runs follow-up probes after the handled call: caller locals, caller's 其, a callee local that must be gone (guarded read), a second call of the same chain, final result; on in-memory runs also the VM's call depth and scope depth. Plus, for every raise kind, a method that raises and handles N = 1, 2, 10, 100, 1000, 5000, 20000, 120000 times in one run: afterwards ordinary expressions have their values, every block has ended, no call is left open. Oracle: reference interpreter. Distinct by construction; non-trivial = at least one handler present.",
 		Assumptions: []string{
 			"reference semantics from manual ch.4: runtime faults and failing built-ins are exceptions of class 异常; handler value is its 输出 or 空",
 			"the message text of faults / built-in failures is not compared (其内容 is displayed only for 抛出 with a known message)",
@@ -563,6 +565,9 @@ func init() {
 					continue
 				}
 				c.CaseIdx(total + k)
+				if c09RepeatCounts[k%int64(len(c09RepeatCounts))] >= 20000 {
+					c.AllowSlow(200)
+				}
 				if f := c09Repeat(int(k/int64(len(c09RepeatCounts))), c09RepeatCounts[k%int64(len(c09RepeatCounts))]); f != nil {
 					c.Fail(*f)
 				}
